@@ -130,7 +130,14 @@ def history_settled(res):
         if t is not None and t["pre"] in ("stale", "stale-tail"):
             old = _parse_or_none(snap0[f]) if f in snap0 else None
             onode = located(old, scn["names"][k]) if old is not None else None
-            if onode is not None and ast.dump(onode) == ast.dump(node):
+            # (no definition of that name anywhere in the file is the stale one still: where an assignment to the name was
+            # replaced instead - recorded finding same-named-binding-replaced - two definitions carry the name afterwards, and
+            # the one sync reads as the truth is the first)
+            # (compared with the docstrings in their cleandoc form: a rewrite of the whole module re-indents them)
+            def norm(n):
+                return ast.dump(_clean_docstrings(ast.Module(body=[n], type_ignores=[])))
+            if onode is not None and norm(onode) in {norm(n) for n in ast.walk(tree)
+                                                     if isinstance(n, (ast.ClassDef, ast.FunctionDef)) and n.name == onode.name}:
                 return False
     return True
 
